@@ -734,3 +734,67 @@ func variadicElems(arg ssa.Value) []ssa.Value {
 	}
 	return out
 }
+
+// privateHelperOf: g is a helper of f — in the same package, and all its static
+// callers in the module are f (or helpers of f). Used so that an "extract
+// method" refactoring does not change what a rule looks at.
+func privateHelperOf(P *Prog, g, f *ssa.Function) bool {
+	if g == f {
+		return true
+	}
+	if pkgOf(g) != pkgOf(f) {
+		return false
+	}
+	n := 0
+	for _, h := range P.ModFns {
+		for _, call := range calls(h) {
+			if call.Common().StaticCallee() == g {
+				n++
+				top := h
+				for top.Parent() != nil {
+					top = top.Parent()
+				}
+				if top != f {
+					return false
+				}
+			}
+		}
+	}
+	return n > 0
+}
+
+// applierOf returns the function in which the memstore is actually updated:
+// the unique module function containing a Tree.Update call on memstore.tree.
+func ingestApplier(P *Prog) (*ssa.Function, []ssa.CallInstruction) {
+	var fn *ssa.Function
+	var sites []ssa.CallInstruction
+	multi := false
+	for _, f := range P.ModFns {
+		for _, call := range callsTo(f, "(*z/bytetree.Tree).Update") {
+			if isFieldLoad(call.Common().Args[0], "z.memstore.tree") {
+				if fn != nil && fn != f {
+					multi = true
+				}
+				fn = f
+				sites = append(sites, call)
+			}
+		}
+	}
+	if multi {
+		return nil, sites
+	}
+	return fn, sites
+}
+
+// callSitesOf: static call sites of g in the module.
+func callSitesOf(P *Prog, g *ssa.Function) []ssa.CallInstruction {
+	var out []ssa.CallInstruction
+	for _, h := range P.ModFns {
+		for _, call := range calls(h) {
+			if call.Common().StaticCallee() == g {
+				out = append(out, call)
+			}
+		}
+	}
+	return out
+}
